@@ -149,7 +149,7 @@ Qed.
 Lemma phase_S g sk n i : nth_error sk n = Some i -> phase_at g sk (S n) = next g (phase_at g sk n) i.
 Proof. intros H. unfold phase_at. rewrite (firstn_S_nth sk n i H), fold_left_app. reflexivity. Qed.
 Lemma fold_err g l : fold_left (next g) l PErr = PErr.
-Proof. induction l as [|i l IH]; [reflexivity|]. cbn [fold_left]. replace (next g PErr i) with PErr; [exact IH|]. destruct i as [m|m| |]; cbn; try reflexivity; destruct (mutex_eqb m g); reflexivity. Qed.
+Proof. induction l as [|i l IH]; [reflexivity|]. cbn [fold_left]. replace (next g PErr i) with PErr; [exact IH|]. destruct i as [m|m| | |]; cbn; try reflexivity; destruct (mutex_eqb m g); reflexivity. Qed.
 Lemma phase_ok g sk : shape g sk = true -> forall n, phase_at g sk n <> PErr.
 Proof.
   unfold shape, phase_at. intros H n E. rewrite <- (firstn_skipn n sk) in H at 1.
@@ -163,7 +163,6 @@ Qed.
 Lemma phase_0 g sk : phase_at g sk 0 = P0. Proof. reflexivity. Qed.
 
 (* ------------------------------------------------------------------ Part 3: the interleaving invariant *)
-Definition holding (p : phase) : bool := match p with P1 | P2 => true | _ => false end.
 Definition done (p : phase) : nat := match p with P2 | P3 => 1 | _ => 0 end.
 Lemma acq_of_app g a b : acq_of g (a ++ b) = acq_of g a ++ acq_of g b.
 Proof. unfold acq_of. rewrite filter_app, map_app. reflexivity. Qed.
@@ -273,7 +272,7 @@ Proof.
     - intros t' H. sp t' t; [rewrite phase_0 in H; discriminate|apply I12; exact H]. }
   pose proof (phase_S g sk _ _ En) as HS.
   pose proof (phase_ok g sk Hshape (S (pc (th s t)))) as Hok. rewrite HS in Hok.
-  destruct i as [m|m| |].
+  destruct i as [m|m| | |].
   - (* Lock m *)
     destruct (owner s m) eqn:Eo; [discriminate|]. injection H as <-. exists a.
     assert (Hw : wph (th s t) = W0) by (apply (w0_if_not_work s a t I); congruence).
@@ -399,6 +398,10 @@ Proof.
       * intros _. rewrite map_app. cbn. apply I12. exact Hp1.
       * intros t' H. exfalso. sp t' t; [congruence|].
         apply Hne. apply (hold_unique s a t' t I); [rewrite H; reflexivity|exact Hhold].
+  - (* Flush *)
+    injection H as <-. exists a.
+    assert (Hw : wph (th s t) = W0) by (apply (w0_if_not_work s a t I); congruence).
+    apply transfer_inv; try assumption; try reflexivity; try (rewrite HS; reflexivity).
   - (* Other *)
     injection H as <-. exists a.
     assert (Hw : wph (th s t) = W0) by (apply (w0_if_not_work s a t I); congruence).
@@ -450,15 +453,15 @@ Proof.
     destruct (step sk quota s u) as [s'|] eqn:E; [|apply IH; assumption].
     apply IH; clear IH.
     - intros t' Ht'. unfold step in E. destruct (Nat.leb_spec (quota u) (idx (th s u))) as [|Hlt]; [discriminate|].
-      destruct (nth_error sk (pc (th s u))) as [[m|m| |]|];
+      destruct (nth_error sk (pc (th s u))) as [[m|m| | |]|];
         [destruct (owner s m); [discriminate|]|destruct (owner s m) as [o|]; [destruct (Nat.eqb o u); [|discriminate]|discriminate]
-        |destruct (wph (th s u))| |]; injection E as <-; cbn [th] in *;
+        |destruct (wph (th s u))| | |]; injection E as <-; cbn [th] in *;
         (destruct (Nat.eq_dec t' u) as [->|Hne]; [rewrite upd_same in *; cbn [idx pc wph mk_t] in *; try lia; split; reflexivity
                                                  |rewrite upd_other in * by assumption; apply H; exact Ht']).
     - intros t'. unfold step in E. destruct (Nat.leb_spec (quota u) (idx (th s u))) as [|Hlt]; [discriminate|].
-      destruct (nth_error sk (pc (th s u))) as [[m|m| |]|];
+      destruct (nth_error sk (pc (th s u))) as [[m|m| | |]|];
         [destruct (owner s m); [discriminate|]|destruct (owner s m) as [o|]; [destruct (Nat.eqb o u); [|discriminate]|discriminate]
-        |destruct (wph (th s u))| |]; injection E as <-; cbn [th] in *;
+        |destruct (wph (th s u))| | |]; injection E as <-; cbn [th] in *;
         (destruct (Nat.eq_dec t' u) as [->|Hne]; [rewrite upd_same; cbn [idx mk_t]; lia|rewrite upd_other by assumption; apply Hle]). }
   intros t. apply G; cbn; intros; [split; reflexivity|lia].
 Qed.
@@ -507,9 +510,9 @@ Proof.
         destruct (step sk quota s u) as [s'|] eqn:E; [|apply IH; exact H]. apply IH.
         unfold step in E. destruct (Nat.leb_spec (quota u) (idx (th s u))) as [|Hlt]; [discriminate|].
         assert (u <> t) by (intros ->; rewrite (Hq t Hg) in Hlt; lia).
-        destruct (nth_error sk (pc (th s u))) as [[m|m| |]|];
+        destruct (nth_error sk (pc (th s u))) as [[m|m| | |]|];
         [destruct (owner s m); [discriminate|]|destruct (owner s m) as [o|]; [destruct (Nat.eqb o u); [|discriminate]|discriminate]
-        |destruct (wph (th s u))| |]; injection E as <-; cbn [th]; rewrite upd_other by congruence; exact H. }
+        |destruct (wph (th s u))| | |]; injection E as <-; cbn [th]; rewrite upd_other by congruence; exact H. }
       rewrite (Hq t Hg). apply G. reflexivity. }
     rewrite Ep, phase_0 in E. discriminate.
 Qed.
@@ -670,7 +673,7 @@ Proof.
       split; [exact A|]. split; [exact B|]. split; [exact C|]. split; [exact D|]. split; [|exact F].
       intros t' Ht'. rewrite (E t' Ht'). unfold s1. cbn [th]. apply upd_other. exact Ht'. }
     subst p s'. set (p := phase_at g sk (length pre)) in *.
-    destruct i as [m|m| |].
+    destruct i as [m|m| | |].
     + (* Lock m *)
       assert (Hfree : owner s m = None /\ (if mutex_eqb m L then negb hl else negb hm) = true /\
                       wf_from rest (if mutex_eqb m L then true else hl) (if mutex_eqb m L then hm else true) = true).
@@ -730,6 +733,9 @@ Proof.
       * rewrite F1. reflexivity.
       * rewrite F2. reflexivity.
       * rewrite F3. unfold s4. cbn [evs]. rewrite <- app_assoc. reflexivity.
+    + (* Flush *)
+      eapply Plain with (o' := owner s) (acq' := acq s) (hl' := hl) (hm' := hm); try assumption; try reflexivity.
+      unfold step. rewrite Hq, Hnth. reflexivity.
     + (* Other *)
       eapply Plain with (o' := owner s) (acq' := acq s) (hl' := hl) (hm' := hm); try assumption; try reflexivity.
       unfold step. rewrite Hq, Hnth. reflexivity.
